@@ -1585,6 +1585,9 @@ func agreeKindTag(r *engine.Run, rule string) {
 		if pos == "" {
 			pos = r.P.Pos(h.Pos())
 		}
+		if hb, _ := hashBody(h); hb != nil {
+			h = hb
+		}
 		var buf ssa.Value
 		engine.Instrs(h, func(in ssa.Instruction) {
 			if c, ok := in.(*ssa.Call); ok && extCalleeIs(c, "bytes", "", "NewBuffer") {
